@@ -54,6 +54,7 @@ import (
 	"os"
 	"path/filepath"
 	"sort"
+	"strings"
 	"sync/atomic"
 
 	pk "github.com/Tnze/go-mc/net/packet"
@@ -117,12 +118,57 @@ var srcKinds = []string{
 	"bytereader-at-offset", // *bytes.Reader that has already delivered a 3-byte prefix (a field in the middle of a packet)
 	"plain-1-byte-reads",   // io.Reader only, every Read returns at most one byte (legal short reads)
 	"bufio-3-byte-reads",   // *bufio.Reader (a ByteReader, as in go-mc's own net.Conn) over a source that hands out at most 3 bytes per Read: short reads AND ReadByte
+	"plain-zero-reads",     // io.Reader only; every other Read answers (0, nil) ("nothing happened": the caller must read again), the others fill completely
+	"plain-eof-with-last",  // io.Reader only; the Read that hands out the last byte of the stream reports io.EOF together with it (only fields without a tail end there)
 	"bytes.Buffer-reused",  // *bytes.Buffer (ByteReader, WriterTo, Next/Bytes expose its array); its memory is overwritten and the buffer refilled after ReadFrom returns, before the decoded value is looked at: a field must own what it decoded
 }
 
 func srcName(s int) string { return srcKinds[s] }
 
+const srcZeroReads = 5 // index of "plain-zero-reads" in srcKinds
+
 var srcPrefix = []byte{0x81, 0x82, 0x03}
+
+// stutterReader: io.Reader only; every other Read answers (0, nil).
+type stutterReader struct {
+	data  []byte
+	pos   int
+	calls int
+}
+
+func (z *stutterReader) Read(b []byte) (int, error) {
+	if len(b) == 0 {
+		return 0, nil
+	}
+	z.calls++
+	if z.calls&1 == 1 {
+		return 0, nil
+	}
+	if z.pos >= len(z.data) {
+		return 0, io.EOF
+	}
+	n := copy(b, z.data[z.pos:])
+	z.pos += n
+	return n, nil
+}
+
+// eofLastReader: io.Reader only; fills every Read; io.EOF arrives together with the last byte of the stream.
+type eofLastReader struct {
+	data []byte
+	pos  int
+}
+
+func (e *eofLastReader) Read(b []byte) (int, error) {
+	if len(b) == 0 {
+		return 0, nil
+	}
+	n := copy(b, e.data[e.pos:])
+	e.pos += n
+	if e.pos >= len(e.data) {
+		return n, io.EOF
+	}
+	return n, nil
+}
 
 // dribbleReader: io.Reader only; never more than Max bytes per Read.
 type dribbleReader struct {
@@ -309,6 +355,14 @@ func erase[T any](c *codec[T]) *erased {
 				// what the decoder took is what left the underlying source minus what bufio still holds
 				r, taken = bf, func() int { return dr.Pos - bf.Buffered() }
 			case 5:
+				zr := &stutterReader{data: stream}
+				r, taken = zr, func() int { return zr.pos }
+			case 6:
+				// no sentinel tail here: the field's last byte IS the last byte of the stream
+				stream = wire
+				er := &eofLastReader{data: stream}
+				r, taken = er, func() int { return er.pos }
+			case 7:
 				backing := append(make([]byte, 0, len(stream)+8), stream...)
 				bb := bytes.NewBuffer(backing)
 				r, taken = bb, func() int { return len(stream) - bb.Len() }
@@ -761,6 +815,11 @@ func runParts() {
 		for prior := -1; prior < e.n+e.np; prior++ {
 			for vi := 0; vi < e.n; vi++ {
 				for src := range srcKinds {
+					if src == srcZeroReads && strings.Contains(e.name, "NBT(") {
+						// go-mc's NBT byte reader takes a (0, nil) answer for a zero byte; no property speaks about
+						// readers that answer (0, nil), so NBT-carrying shapes are not driven from this source
+						continue
+					}
 					c := Case{Part: "dec", Shape: e.name, Prior: prior, Hist: []int{vi}, Src: src}
 					if e.unspec(prior, c.Hist) {
 						rep.Unspec(1)
